@@ -68,12 +68,12 @@ impl<const N: usize, T: Send + Sync> ConIterOfArray<N, T> {
         debug_assert!(left_len <= N);
 
         let man_array = &mut *self.array.get();
-        let mut array = ManuallyDrop::take(man_array);
+        let ptr = man_array.as_mut_ptr();
 
-        let mut vec = Vec::from_raw_parts(array.as_mut_ptr(), N, 0);
-        let right_vec = vec.split_off(left_len);
-
-        *man_array = ManuallyDrop::new(array);
+        // moves the elements that are not yet yielded out of the array;
+        // afterwards nothing in the array remains to be dropped or yielded
+        let right_vec = (left_len..N).map(|i| ptr.add(i).read()).collect();
+        self.counter.store(N);
         right_vec
     }
 }
